@@ -366,7 +366,13 @@ fn run_ops<'g>(game: &'g Game<u64, u64>, other_game: Option<&'g Game<u64, u64>>,
             "truncate" => {
                 let src = op["src"].as_u64().unwrap() as usize;
                 let dst = op["dst"].as_u64().unwrap() as usize;
-                match slots.get(src).cloned().flatten() {
+                // "inplace": the object in the source slot itself is truncated and moved (no clone in between)
+                let taken = if op["inplace"].as_bool().unwrap_or(false) {
+                    slots.get_mut(src).and_then(|s| s.take())
+                } else {
+                    slots.get(src).cloned().flatten()
+                };
+                match taken {
                     None => json!({"skip": true}),
                     Some(mut s) => {
                         let th = f(&op["thresh"]);
